@@ -12,8 +12,10 @@
    "source unchanged" and "writes are not visible through the other value" are observed by the
    harness for every call (snapshots before/after, overwrite of every reachable location).
    "Never visible through the other" follows from label disjointness under the frame reading of
-   labels (Copy/Theorems.v header): that step is an argument in the text — partial. *)
-From Verif Require Import Go.Ty Go.Val Go.Equal Copy.Model Copy.Erase Copy.Proofs Copy.Theorems.
+   labels; Copy/Frame.v states the reading ([upd]: a write changes the object with one label) and
+   the theorems *_writes_invisible_partial are its consequence; that labels ARE addresses remains
+   the modelling assumption — partial. *)
+From Verif Require Import Go.Ty Go.Val Go.Equal Copy.Model Copy.Erase Copy.Proofs Copy.Frame Copy.Theorems.
 
 (* the emitted code neither panics nor leaves the modelled fragment: it returns, or the
    generator has refused the type (Unsup) *)
@@ -68,6 +70,18 @@ Theorem C05_copy_src_label_disjoint : forall e t src dst n,
   forall l, In l (labels r) -> ~ In l (labels src).
 Proof. exact copy_src_label_disjoint. Qed.
 Print Assumptions C05_copy_src_label_disjoint.
+
+(* "a later write through either is never visible through the other", with a write modelled as an
+   arbitrary change [f] of the object labelled l ([upd], Copy/Frame.v).  PARTIAL: that equal labels
+   are the same object and different labels different objects is the modelling assumption. *)
+Theorem C05_copy_writes_invisible_partial : forall e t src dst n,
+  has_type e t src = true -> has_type e t dst = true -> top_guard src dst = true ->
+  forall r n', deepcopy_top e t dst src n = Ok (r, n') ->
+  (forall l, In l (labels src) -> (l < n)%N) ->
+  (forall l, In l (labels src) -> ~ In l (labels dst)) ->
+  (forall l f, In l (labels r) -> upd l f src = src) /\ (forall l f, In l (labels src) -> upd l f r = r).
+Proof. exact copy_writes_invisible. Qed.
+Print Assumptions C05_copy_writes_invisible_partial.
 
 (* one component, any prior contents of the destination location (shorter/longer slices with
    spare capacity, non-nil where the source is nil and vice versa, ...) *)
@@ -124,6 +138,13 @@ Theorem C05_clone_src_label_disjoint : forall e t src n, has_type e t src = true
   forall l, In l (labels r) -> ~ In l (labels src).
 Proof. exact clone_src_label_disjoint. Qed.
 Print Assumptions C05_clone_src_label_disjoint.
+
+Theorem C05_clone_writes_invisible_partial : forall e t src n, has_type e t src = true ->
+  forall r n', clone_model e t src n = Ok (r, n') ->
+  (forall l, In l (labels src) -> (l < n)%N) ->
+  (forall l f, In l (labels r) -> upd l f src = src) /\ (forall l f, In l (labels src) -> upd l f r = r).
+Proof. exact clone_writes_invisible. Qed.
+Print Assumptions C05_clone_writes_invisible_partial.
 
 (* structural equality ignores exactly what [erase] forgets; assignable values carry no label *)
 Theorem C05_equal_ignores_labels_and_spare : forall x e t y,
